@@ -190,6 +190,31 @@ def run(ck):
         add(src="x := 0\nreturn %s\n" % l, tag="arity:return", asmod=True, run=True)
         add(src="x := 0\nr := x ? %s\n" % l.replace(", ", " : "), tag="arity:ternary", run=True)
         add(src="x := 0\nif %s { x = 1 }\nfor %s { break }\n" % (l.replace(", ", "; "), l.replace(", ", "; ")), tag="arity:if-for-clauses", run=True)
+    # ---- (6c) openers of multi-character tokens with every short tail (unterminated comments/strings/chars ending in the
+    # characters their scanners look ahead for), and floods of scanner errors in first and in later position
+    tails_alpha = [b"*", b"/", b"\r", b"\n", b"\\", b"\"", b"'", b"`", b"\x00", b"\xff", b"a", b" "]
+    for opener in (b"/*", b"//", b"\"", b"`", b"'", b"/**", b"'\\", b"\"\\", b"0x", b"1e", b"#!", b"\xef\xbb\xbf"):
+        for n in range(0, 4):
+            for tup in itertools.product(tails_alpha, repeat=n):
+                raw = opener + b"".join(tup)
+                add(raw=raw, tag="opener-tail", run=False)
+                if n <= 2:
+                    add(raw=b"x := 1\n" + raw, tag="opener-tail/later", run=False)
+                    add(raw=raw, tag="opener-tail/module", asmod=True, run=False)
+    for bad in (b"\x00", b"\xff", b"\xef\xbb\xbf", b"\xc3", b"\x80"):
+        for lines in (1, 9, 10, 11, 12, 13, 25):
+            body = b"".join(b"line " + bad + b" x\n" for _ in range(lines))
+            for wrap in (b"/*\n%s*/\nx := 1\n", b"`\n%s`\n", b"// c\n" * 0 + b"%s", b"x := `\n%s`\n", b"x := 1 /*\n%s*/\n", b"x := \"%s\"\n"):
+                src = wrap.replace(b"%s", body) if b"%s" in wrap else wrap
+                add(raw=src, tag="error-flood", run=False)
+                add(raw=src, tag="error-flood/module", asmod=True, run=False)
+            add(raw=b"".join(b"// " + bad + b"\n" for _ in range(lines)) + b"x := 1\n", tag="error-flood/line-comments", run=False)
+    # ---- (6d) legal nestings of loops and function literals with break/continue at every level
+    for inner in ("for { break }", "for j := 0; j < 2; j++ { continue }", "for x in [1, 2] { if x == 1 { continue }; break }"):
+        for outer in ("for i := 0; i < 2; i++ { %s }", "for i in [1, 2] { %s }", "for { %s; break }"):
+            for mid in ("f := func() { %s; return 1 }; f()", "f := func() { g := func() { %s }; g() }; f()", "%s"):
+                add(src=(outer % (mid % inner)) + "\n", tag="nesting:loop-func-loop", run=True)
+                add(src=(outer % (mid % inner)) + "\n", tag="nesting:loop-func-loop/module", asmod=True, run=True)
     # ---- (7) embedder-supplied importables returning every kind of value
     for kind in ("map", "array", "int", "immutable-map-noname", "undefined", "bytes-src", "error", "string"):
         add(src="x := import(\"weird\")\ny := import(\"weird\")\nz := [x, y]\n", tag="importable:" + kind, weird=kind, imports=True, run=True)
